@@ -318,7 +318,41 @@ def generate(seed, tier):
             tt += 9.0
     sc['B_dpd'] = rb_dpd
     ops.sort(key=lambda x: (x['t'], 0 if x.get('before_start') else 1))
+    if r.random() < 0.2:
+        _halfopen_batch(sc, r)
     return sc
+
+
+def _halfopen_batch(sc, r):
+    """Batch 'halfopen' (clause: an ACQUIRE for an installed index IS negotiated with the peer, re-using an IKE_SA if one exists).
+    Lossless, nobody restarts.  Somebody sends B one well-formed IKE_SA_INIT request with A's source address (a half-open responder
+    IKE_SA for the address pair appears at B and stays: nothing ever answers B's reply), before or after an honest handshake started by
+    A; then B's own kernel sees traffic for one of its entries.  5 s later that traffic must be protected."""
+    rb = next(iter(configs.read_conf(sc['nodes']['B']['conf']).values()))
+    ra = next(iter(configs.read_conf(sc['nodes']['A']['conf']).values()))
+    ent = r.randrange(len(rb['protect']))
+    flow_b = configs.flow_for_entry(r, rb['my_addr'], rb['peer_addr'], rb['protect'][ent])
+    flow_a = configs.flow_for_entry(r, ra['my_addr'], ra['peer_addr'], ra['protect'][0])
+    ts = round(r.uniform(0.4, 3.0), 3)
+    ta = round(ts + r.uniform(0.2, 3.0), 3)
+    ops = [{'t': 0.0, 'op': 'start', 'node': 'A'}, {'t': 0.05, 'op': 'start', 'node': 'B'}]
+    how = r.choice(['none', 'before', 'after'])
+    if how == 'before':
+        ops.append({'t': round(r.uniform(0.2, ts - 0.15), 3) if ts > 0.4 else 0.2, 'op': 'packet', 'node': 'A', 'flow': flow_a})
+    elif how == 'after':
+        ops.append({'t': round(r.uniform(ts + 0.05, ta), 3), 'op': 'packet', 'node': 'A', 'flow': flow_a})
+    ops.append({'t': ts, 'op': 'call', 'name': 'spoof_init', 'node': 'B', 'seed': r.randrange(2 ** 31), 'n': r.choice([1, 1, 2])})
+    ops.append({'t': ta, 'op': 'packet', 'node': 'B', 'flow': flow_b})
+    ops.append({'t': round(ta + 5.0, 3), 'op': 'call', 'name': 'acq_probe', 'flow': flow_b, 'entry': ent, 'honest_handshake': how})
+    ops.sort(key=lambda x: x['t'])
+    sc['ops'] = ops
+    sc['fates'] = {}
+    sc['fate_policy'] = {'mode': 'deliver'}
+    sc['quiet_from'] = 0.0
+    sc['until'] = round(ta + 6.0, 3)
+    sc['meta']['batch'] = 'halfopen'
+    sc['meta']['faults'] = []
+    sc.pop('probe_flow', None)
 
 
 def run(scenario):
@@ -404,7 +438,41 @@ def run(scenario):
             ctx['probes'].append((round(w.now, 1), ok, why))
             if not ok:
                 w.packet('A', op['flow'])
-        ctx['handlers'] = {'preload': preload, 'reconf': reconf, 'mark_stale': mark_stale, 'foreign_acquire': foreign_acquire, 'probe': probe}
+        def spoof_init(w, op):
+            node = w.nodes[op['node']]
+            if node.state != 'running' or node.exited:
+                return
+            from checks.c18 import build_init
+            rr = random.Random(f'spoof:{op["seed"]}')
+            conn = next(iter(configs.read_conf(node.conf).values()))
+            for _ in range(op.get('n', 1)):
+                data = build_init(conn, bytes(rr.getrandbits(8) for _ in range(8)), bytes(rr.getrandbits(8) for _ in range(32)), rr.getrandbits(200) + 2)
+                w.net.inject(data, str(conn['peer_addr']), str(conn['my_addr']), 0.0, 'forge.spoofed_init')
+            orc._r('halfopen.spoofed_init')
+
+        def acq_probe(w, op):
+            if w.nodes['A'].state != 'running' or w.nodes['B'].state != 'running':
+                return
+            ok, why = data_plane_probe(w, 'B', 'A', op['flow'])
+            b = w.nodes['B']
+            table = [(sa.state.name, 'initiator' if sa.is_initiator else 'responder', len(sa.child_sas), len(sa.pending_events)) for sa in b.ike_sas()]
+            orc._r('halfopen.acquire_probed')
+            orc._r('halfopen.honest_' + op.get('honest_handshake', 'none'))
+            if ok:
+                orc._r('halfopen.acquire_served')
+                return
+            started = [x for x in wire.by_sender.get('B', []) if x['t'] >= op['t'] - 5.0 - 1e-9 and x['h'] is not None and not x['h']['R']
+                       and x['h']['exch'] in (34, 36)]
+            if started:
+                # it was negotiated; the peer's policy refused it (overlapping entries with other proposals / modes): not this clause
+                orc._r('halfopen.negotiated_but_refused')
+                return
+            first = table[0][0] if table else 'none'
+            orc.viol('acquire_never_negotiated', {'first_ike_sa_with_peer': first, 'established_exists': any(t[0] == 'ESTABLISHED' for t in table)},
+                     f'B: 5 s after its kernel asked (ACQUIRE) for protection of {op["flow"]}, over a lossless network with A alive, the flow is still '
+                     f'unprotected ({why}) and B has not sent a single IKE_SA_INIT / CREATE_CHILD_SA request since; IKE_SAs at B (state, role, CHILD_SAs, queued events): {table}')
+        ctx['handlers'] = {'preload': preload, 'reconf': reconf, 'mark_stale': mark_stale, 'foreign_acquire': foreign_acquire, 'probe': probe,
+                           'spoof_init': spoof_init, 'acq_probe': acq_probe}
 
     def at_end(w, ctx):
         pr = ctx['probes']
@@ -429,7 +497,8 @@ def run(scenario):
         else:
             reach['probe_unserved_also_without_restarts'] = 1
     restarts = sum(1 for o in scenario['ops'] if o['op'] == 'restart')
-    st = workload.base_stats(w, ctx['cov'], {'reach': reach, 'nontrivial': restarts > 0 and bool(reach.get('acquire_mapped'))})
+    st = workload.base_stats(w, ctx['cov'], {'reach': reach, 'nontrivial': (restarts > 0 or bool(reach.get('halfopen.acquire_probed')))
+                                             and bool(reach.get('acquire_mapped'))})
     if scenario.get('seed', 0) % 67 == 0 or w.violations:
         st['sample'] = {'seed': scenario.get('seed'), 'meta': scenario.get('meta'),
                         'ops': [o for o in scenario['ops'] if o.get('name') != 'probe'][:16], 'reach': reach}
